@@ -1031,7 +1031,7 @@ func ser(c px.Context, o opts, cp caps, vs sx.Sexp) core.Result {
 			// the init hash written in the op (what the model serializes) must be the type's own
 			var sb1, sb2 strings.Builder
 			n.init.write(&sb1, map[*node]bool{})
-			next := int64(1000)
+			next := 1000 * (n.id + 1) // the identity range of this definition's init hash (gen.go finish)
 			if ot, ok := lv.(px.ObjectType); ok {
 				if mine, ok := valueNode(ot.(px.PuppetObject).InitHash(), &next, freshType(parentCtx)); ok {
 					mine.write(&sb2, map[*node]bool{})
